@@ -119,13 +119,26 @@ func gen(t *rapid.T) Case {
 		}
 		s.Handler.Drain = true
 		s.Handler.Final = finalGen(t)
-		if k == 0 || rapid.Bool().Draw(t, "sendfirst") {
+		// (with k == 0 and no Send the context ends before the call has done
+		// anything at all: the request may not even have been started)
+		started := k > 0
+		if rapid.Bool().Draw(t, "sendfirst") {
 			s.Client.Ops = append(s.Client.Ops, prog.COp{Op: "send", Msg: msg(9, 10)})
+			started = true
 		}
 		s.Client.Ops = append(s.Client.Ops, prog.COp{Op: "cancel"})
 		na := rapid.IntRange(0, 4).Draw(t, "nafter")
+		if !started {
+			na = max(na, 1)
+		}
 		for r := 0; r < na; r++ {
 			op := rapid.SampledFrom([]string{"send", "recv", "closereq", "closeresp"}).Draw(t, "afterop")
+			if !started {
+				// the statement's programs start the request side before
+				// using the response side
+				op = rapid.SampledFrom([]string{"send", "closereq"}).Draw(t, "firstop")
+				started = true
+			}
 			co := prog.COp{Op: op}
 			if op == "send" {
 				co.Msg = msg(20+r, 10)
@@ -180,6 +193,14 @@ func gen(t *rapid.T) Case {
 		}
 		s.Handler.Resp = msg(7, 10)
 		s.Handler.Final = finalGen(t)
+		if (s.Cfg.Kind == prog.Unary || s.Cfg.Kind == prog.Client) && rapid.IntRange(0, 3).Draw(t, "mismatch") == 0 {
+			// the peer answers a single-response call with a stream of messages
+			s.HandlerKind = map[string]string{prog.Unary: prog.Server, prog.Client: prog.Bidi}[s.Cfg.Kind]
+			s.Handler.Steps = append(s.Handler.Steps, prog.HStep{Op: "recv", N: -1})
+			for k := 0; k < rapid.IntRange(2, 3).Draw(t, "extraResponses"); k++ {
+				s.Handler.Steps = append(s.Handler.Steps, prog.HStep{Op: "send", Msg: msg(30+k, 10)})
+			}
+		}
 	}
 	return c
 }
@@ -243,6 +264,16 @@ func check(tt *testing.T, c Case) (pbt.Info, error) {
 	}
 	if c.Family == "cancel" {
 		return info, nil // codes after cancellation are C15's business
+	}
+	if s.HandlerKind != "" {
+		// the call cannot succeed (several messages for a single-response
+		// call); what it must still do is end, close the body and leave nothing behind
+		info.Label("peer-answers-with-a-stream")
+		info.NonTrivial = true
+		if res.CleanEnd && res.Err == nil && len(handlerSent(&s.Handler)) >= 2 {
+			return info, fmt.Errorf("%s: the peer sent %d messages in answer to a single-response call, yet the call succeeded", where, len(handlerSent(&s.Handler)))
+		}
+		return info, nil
 	}
 	if c.Family == "oversize" {
 		// the Receive that meets the oversized message fails, and so does every later one
